@@ -111,4 +111,5 @@ def extras_region_contract(with_extras=True):
                           "track_memory": T.bool, "rank": T.int, "dirname": T.label, "compl": T.int},
                  ensures=ensures, setup=setup, region=_region, raises=lambda S, a, e: z3.BoolVal(False))
     c.region_name = "canonicalisation of originals and extras (%s)" % ("with extra trees" if with_extras else "no extra tree")
+    c.live_ins = ("all_fun", "extra_orig", "nextra")
     return c
